@@ -178,7 +178,21 @@ def build(reconnect_opt, real_noise=False):
         prof.write_config = lambda c: None
     st.setProp("profile", prof)
     iq = [s for s in st.getLayer(4 if real_noise else 3).sublayers if type(s).__name__ == "YowIqProtocolLayer"][0]
-    iqmod.YowPingThread.start = lambda self: w.log.append("keepalive-started")
+    # the keep-alive thread is observed at its public surface (start / stop / run): its body is run inline per tick
+    w.ping_thread = None
+    if not hasattr(iqmod.YowPingThread, "_verif_orig_stop"):
+        iqmod.YowPingThread._verif_orig_stop = iqmod.YowPingThread.stop
+
+    def _start(self):
+        w.log.append("keepalive-started")
+        w.ping_thread = self
+
+    def _stop(self):
+        if w.ping_thread is self:
+            w.ping_thread = None
+        return iqmod.YowPingThread._verif_orig_stop(self)
+    iqmod.YowPingThread.start = _start
+    iqmod.YowPingThread.stop = _stop
     return st, w, net, disp, app, iq, iqmod
 
 
@@ -202,9 +216,9 @@ def run_loop(st):
         Y.time = old
 
 
-def ping_tick(iq, iqmod):
+def ping_tick(w, iqmod):
     """one period of the real keep-alive thread body"""
-    th = iq._pingThread
+    th = w.ping_thread
     calls = {"n": 0}
 
     class FakeTime(object):
@@ -272,7 +286,7 @@ def h_history(ctx, n, prefix=(), real_noise=False):
                 possible.append(e)
             elif e == "disconnect-request" and disp.state in ("connecting", "up"):
                 possible.append(e)
-            elif e == "ping-tick" and disp.state == "up" and iq._pingThread is not None:
+            elif e == "ping-tick" and disp.state == "up" and w.ping_thread is not None:
                 possible.append(e)
             elif e == "pong" and disp.state == "up" and g["outstanding"]:
                 possible.append(e)
@@ -287,6 +301,7 @@ def h_history(ctx, n, prefix=(), real_noise=False):
         mark = len(w.log)
         n_ent = len(app.entities)
         n_up = len([x for x in w.sent_nodes if getattr(x, "tag", None) == "iq" and x.getChild("list") is not None])
+        n_sent = len(w.sent_nodes)
         if ev == "connect-request":
             app.connect()
             g["pending"] = True
@@ -321,7 +336,7 @@ def h_history(ctx, n, prefix=(), real_noise=False):
             kids = [N("conflict"), N("text", None, None, b"Replaced by new connection")] if kind == "conflict" else [N("ack")] if kind == "ack" else [N("xml-not-well-formed")]
             net.receive(N("stream:error", {}, kids))
         elif ev == "ping-tick":
-            ping_tick(iq, iqmod)
+            ping_tick(w, iqmod)
         elif ev == "pong":
             pid = g["outstanding"][0]
             net.receive(N("iq", {"id": pid, "type": "result", "from": "s.whatsapp.net"}))
@@ -343,13 +358,13 @@ def h_history(ctx, n, prefix=(), real_noise=False):
         closes = ev in ("keys-upload-result", "socket-error", "peer-close", "disconnect-request", "failure", "stream-error-conflict", "stream-error-ack", "stream-error-other", "handshake-failed")
         keepalive_timeout = ev == "ping-tick" and len(g["outstanding"]) >= 1
         if ev == "ping-tick":
-            # the id registered by this tick is whatever went out or was queued; read it from the layer's queue
-            ids = list(iq._pingQueue.keys()) if not keepalive_timeout else []
+            # the ping this tick sent (observed on its way down): it is outstanding until a pong with its id arrives
+            pings = [hooks.dict_get(x.attributes, "id") for x in w.sent_nodes[n_sent:] if getattr(x, "tag", None) == "iq" and hooks.dict_get(x.attributes, "xmlns") == "w:p"]
             if not keepalive_timeout:
-                g["outstanding"] = ids
+                g["outstanding"] = pings[-1:]
             obs.append((tag + ": keep-alive closes the connection iff a ping is still unanswered", ("dispatcher.disconnect" in new) == keepalive_timeout))
         if ev == "pong":
-            g["outstanding"] = list(iq._pingQueue.keys())
+            g["outstanding"] = []
             obs.append((tag + ": an answered ping never closes the connection", "dispatcher.disconnect" not in new))
         if closes or keepalive_timeout:
             was_up = g["up"]
